@@ -57,6 +57,12 @@ def spy(gate, a, pulse_desc, seed):
     elif via == "pickle":                        # what a process pool does with it
         import pickle
         fac = pickle.loads(pickle.dumps(fac))
+    if a.get("_history"):
+        # the SAME factory object has served the same gate time and two-qubit error with OTHER single-qubit errors before
+        np.random.seed(seed ^ 0x1234)
+        with np.errstate(all="ignore"):
+            fac.construct(a["phi_ctr"], a["phi_trg"], a["t"], a["p2"], a["pc"] * 3.0 + 1e-4, a["pt"] * 0.5 + 2e-4, a["T1c"], a["T2c"], a["T1t"], a["T2t"])
+            fac.construct(a["phi_ctr"], a["phi_trg"], a["t"], a["p2"], 0.9 * a["p2"], 0.9 * a["p2"], a["T1c"], a["T2c"], a["T1t"], a["T2t"])
     calls, krons = [], []
     restore = []
     for attr, sub in list(vars(fac).items()):
@@ -204,6 +210,8 @@ def main(ctx):
             for r in range(reps):
                 a = make_args(rng, mode)
                 pd = pds[r % len(pds)]
+                if r % 4 == 2 or (r % 4 == 0 and r > 0):
+                    a["_history"] = True         # the factory object has a history with the same gate time and two-qubit error
                 if r % 4 == 1:
                     a["_via"] = "deepcopy"       # the factory object is a deep copy (as inside a simulator shot) ...
                 elif r % 4 == 3 and pd[0] != "user-smooth":
